@@ -88,6 +88,10 @@ func runC03(r *Run, replay *Case) {
 			r.Add(c03TruthyCase(fromVal(replay.Input["v"].(map[string]any))))
 			return
 		}
+		if replay.Input["stream"] == "typehistory" {
+			c03TypeHistory(r)
+			return
+		}
 		if replay.Input["stream"] == "pathcond" {
 			for _, sh := range c03PathShapes() {
 				if sh.name == replay.Input["shape"] {
@@ -106,4 +110,5 @@ func runC03(r *Run, replay *Case) {
 	}
 	c03Chains(r)
 	c03PathConds(r)
+	c03TypeHistory(r)
 }
